@@ -187,10 +187,13 @@ class OsFacade:
         self.linesep = '\n'
 
     def __getattr__(self, name):
-        if name in ('fspath', 'cpu_count', 'getpid', 'name', 'curdir', 'pardir', 'extsep', 'devnull',
+        if name in ('fspath', 'getpid', 'name', 'curdir', 'pardir', 'extsep', 'devnull',
                     'PathLike', 'error'):
             return getattr(_os, name)
         raise AttributeError('symx: os.%s is not modelled' % name)
+
+    def cpu_count(self):
+        return _pool.MultiprocessingFacade.cpu_count()
 
     def getcwd(self):
         return self._fs.cwd
